@@ -7,7 +7,7 @@
     here depends on stability.  [isort] (used by the evaluator) is one. *)
 From Coq Require Import ZArith NArith List Bool Permutation Sorted String.
 From AGH Require Import Base.Run Model.Rewrites Proofs.Rewrites Model.RewritesEdit Proofs.RewritesEdit
-  Proofs.RewritesShadow Model.RewritesCache Proofs.RewritesCache.
+  Proofs.RewritesShadow Model.RewritesCache Proofs.RewritesCache Proofs.RewritesChain.
 Import ListNotations.
 
 Definition is_sort (sort : list entry -> list entry) : Prop :=
@@ -866,3 +866,59 @@ Theorem C06_cname_to_covered_name_pre_fix_refuted :
                 rp_answer := [RR_CNAME qname (r_canon r)]; rp_upstream := [] |}).
 Proof. exact CoveredTarget.covered_target_pre_refuted. Qed.
 Print Assumptions C06_cname_to_covered_name_pre_fix_refuted.
+
+(** * Round 7: a chain of canonical names is followed to its end, whatever
+    its length (seeded change C06-M: `maxRewriteCNAMEs = 16`)
+
+    [follows sort tbl qt orig host hs rws_end m_end]: from [host] the entry
+    findRewrites puts first is a canonical-name entry leading to the first
+    name of [hs], and so on through [hs] (no name of [hs] is the queried
+    name, the pattern of its entry or the name before it), and for the last
+    name findRewrites returns [rws_end], which does not start with a
+    canonical-name entry.  For EVERY such chain of distinct names, of any
+    length, the answer is what the entries of the LAST name give, under the
+    last name as canonical name.  (The fuel of the model's chase is S (length
+    table): never a bound, C06_terminates; a chain of distinct names inside
+    the table is at most as long as the table.) *)
+Theorem C06_chain_followed_to_its_end :
+  forall sort, (forall l, Permutation (sort l) l) ->
+  forall tbl qt host hs rws_end m_end,
+    hs <> [] -> NoDup hs ->
+    follows sort tbl qt host host hs rws_end m_end ->
+    process_rewrites sort tbl host qt =
+    Some (set_result {| r_reason := Rewritten; r_canon := last hs []; r_ips := [] |} rws_end qt).
+Proof. exact chain_followed_to_its_end. Qed.
+Print Assumptions C06_chain_followed_to_its_end.
+
+(** By computation: chains of 17 and 64 hops ending in 1.2.3.4, queried at
+    their first name; the premises of the theorem hold for the chain of 17. *)
+Theorem C06_chain_examples :
+  process_rewrites isort (ChainExamples.chain_table 17) (ChainExamples.hop 0) qA = ChainExamples.end_answer 17 /\
+  process_rewrites isort (ChainExamples.chain_table 64) (ChainExamples.hop 0) qA = ChainExamples.end_answer 64 /\
+  follows isort (ChainExamples.chain_table 17) qA (ChainExamples.hop 0) (ChainExamples.hop 0)
+          (map ChainExamples.hop (seq 1 17))
+          [normalize {| w_dom := ChainExamples.hop 17; w_ans := bs "1.2.3.4";
+                        w_parse := Some ChainExamples.ip1234 |}] true.
+Proof. exact (conj ChainExamples.chain_17 (conj ChainExamples.chain_64 ChainExamples.follows_17)). Qed.
+Print Assumptions C06_chain_examples.
+
+(** The chase with a bound on the names followed ([chase_bounded k]: `if
+    cnames.Len() == k { break }` at the top of the loop, the seeded change
+    C06-M with k = 16) is NOT processRewrites: the chain of k + 1 hops stops
+    at hop k with no address (and the name is then resolved upstream). *)
+Theorem C06_chase_bounded_refuted :
+  ~ (forall tbl host qt, process_rewrites_bounded 16 tbl host qt = process_rewrites isort tbl host qt).
+Proof. exact ChainExamples.bounded_refuted. Qed.
+Print Assumptions C06_chase_bounded_refuted.
+
+Theorem C06_chase_bounded_witness :
+  process_rewrites_bounded 16 (ChainExamples.chain_table 17) (ChainExamples.hop 0) qA =
+    Some {| r_reason := Rewritten; r_canon := ChainExamples.hop 16; r_ips := [] |} /\
+  process_rewrites_bounded 16 (ChainExamples.chain_table 16) (ChainExamples.hop 0) qA = ChainExamples.end_answer 16 /\
+  process_rewrites_bounded 3 (ChainExamples.chain_table 4) (ChainExamples.hop 0) qA =
+    Some {| r_reason := Rewritten; r_canon := ChainExamples.hop 3; r_ips := [] |}.
+Proof.
+  exact (conj ChainExamples.bounded_16_stops
+        (conj ChainExamples.bounded_16_agrees_up_to_16 ChainExamples.bounded_3_stops)).
+Qed.
+Print Assumptions C06_chase_bounded_witness.
